@@ -147,7 +147,7 @@ Qed.
 (* ==================================================================================== *)
 (* 3. The loop as a step function; runs                                                 *)
 
-Definition step (strict : bool) (st : lstate) (x : bytes) : option (lstate * bytes) :=
+Definition step (strict : rmode) (st : lstate) (x : bytes) : option (lstate * bytes) :=
   match frame x with
   | FRec d size buf rest =>
       match decode strict (d_paths (l_s st)) d size buf with
@@ -159,7 +159,7 @@ Definition step (strict : bool) (st : lstate) (x : bytes) : option (lstate * byt
   end.
 
 (* What the loader returns when no further record is accepted. *)
-Definition final (old strict : bool) (st : lstate) (x : bytes) : dload :=
+Definition final (old : bool) (strict : rmode) (st : lstate) (x : bytes) : dload :=
   match frame x with
   | FEof => DOk (l_s st) None (needs_recompaction (l_total st) (l_unique st))
   | FTorn =>
@@ -189,7 +189,7 @@ Proof.
   destruct (decode strict (d_paths (l_s st)) d size buf); reflexivity.
 Qed.
 
-Inductive runs (strict : bool) : lstate -> bytes -> lstate -> bytes -> Prop :=
+Inductive runs (strict : rmode) : lstate -> bytes -> lstate -> bytes -> Prop :=
 | runs_nil st x : runs strict st x st x
 | runs_cons st x st1 y st' z :
     step strict st x = Some (st1, y) -> runs strict st1 y st' z -> runs strict st x st' z.
@@ -443,7 +443,20 @@ Lemma decode_path_enc strict paths p :
 Proof.
   intros Hwf Hn Hnin.
   destruct (wf_path_inv p Hwf) as [(b & q & Hrev & Hb) Hsz].
-  unfold decode. rewrite path_body_len, padding_aligned.
+  destruct strict as [strict|]; unfold decode; [unfold decode_old|unfold decode_cur];
+    rewrite path_body_len, padding_aligned.
+  2:{ unfold path_body. rewrite frev_rev, !rev_app_distr, rev_repeat0, Hrev.
+      unfold le32. cbn [rev app].
+      match goal with
+      | |- match ?l with [] => _ | _ :: _ => _ end = _ => destruct l as [|x xs] eqn:E
+      end.
+      { destruct (padding (length p)); discriminate. }
+      rewrite <- E. change (0 =? 0) with true. cbn [negb].
+      rewrite strip3_pad by (auto using padding_lt).
+      rewrite frev_rev, <- Hrev, rev_involutive.
+      rewrite (le32_value _ (lnot32_lt _)).
+      rewrite s32_lnot32_lnot32 by exact Hn.
+      rewrite Z.eqb_refl, mem_bytes_false by exact Hnin. reflexivity. }
   unfold path_body. rewrite frev_rev, !rev_app_distr, rev_repeat0, Hrev.
   unfold le32. cbn [rev app].
   match goal with
@@ -500,13 +513,33 @@ Proof.
   replace (n <=? i) with false by lia. apply IH. exact Hr.
 Qed.
 
+Lemma check_ids_cur_ok n ins :
+  n <= two31 -> Forall (fun i => i < n) ins -> check_ids_cur n ins = true.
+Proof.
+  intros Hn HF. unfold check_ids_cur. apply forallb_forall. intros i Hi.
+  rewrite Forall_forall in HF. specialize (HF i Hi). unfold two31 in *. lia.
+Qed.
+
 Lemma decode_deps_enc strict paths out m ins :
   nlen paths <= two31 -> Forall (fun i => i < nlen paths) ins ->
-  out < two31 - 1 -> wf_mtime m = true ->
+  out < nlen paths -> out < two31 - 1 -> wf_mtime m = true ->
   decode strict paths true (nlen (deps_body out m ins)) (deps_body out m ins) = RDeps out m ins.
 Proof.
-  intros Hn Hins Hout Hm. unfold decode.
-  rewrite deps_body_len.
+  intros Hn Hins Houtn Hout Hm.
+  destruct strict as [strict|]; unfold decode; [unfold decode_old|unfold decode_cur];
+    rewrite deps_body_len.
+  2:{ replace (4 * (3 + nlen ins) mod 4 =? 0) with true by lia.
+      replace (4 * (3 + nlen ins) <? 12) with false by lia. cbn [negb orb].
+      unfold deps_body.
+      rewrite words_of_le32 by (unfold two32, two31 in *; lia).
+      rewrite words_of_le32 by apply mtime_lo_lt.
+      rewrite words_of_le32 by apply mtime_hi_lt.
+      rewrite words_of_flat_le32.
+      2:{ eapply Forall_impl; [|exact Hins]. cbn beta. intros i Hi. unfold two32, two31 in *. lia. }
+      replace (two31 <=? out) with false by (unfold two31 in *; lia).
+      replace (nlen paths <=? out) with false by lia. cbn [orb].
+      rewrite check_ids_cur_ok by assumption.
+      rewrite s64_mtime by exact Hm. reflexivity. }
   replace (4 * (3 + nlen ins) mod 4 =? 0) with true by lia. cbn [negb].
   unfold deps_body.
   rewrite words_of_le32 by (unfold two32, two31 in *; lia).
@@ -527,11 +560,12 @@ Proof. unfold enc_deps_record. rewrite deps_body_len. reflexivity. Qed.
 Lemma step_enc_deps strict st out m ins z :
   nlen (d_paths (l_s st)) <= two31 ->
   Forall (fun i => i < nlen (d_paths (l_s st))) ins ->
+  out < nlen (d_paths (l_s st)) ->
   out < two31 - 1 -> wf_mtime m = true -> 4 * (3 + nlen ins) <= kMaxRecordSize ->
   step strict st (enc_deps_record out m ins ++ z)
   = Some (l_add_deps st out m ins (4 * (3 + nlen ins)), z).
 Proof.
-  intros Hn Hins Hout Hm Hsz.
+  intros Hn Hins Houtn Hout Hm Hsz.
   rewrite enc_deps_record_eq, <- app_assoc. unfold step.
   rewrite (frame_enc true) by (rewrite deps_body_len; unfold kMaxRecordSize in *; lia).
   rewrite decode_deps_enc by assumption.
@@ -742,7 +776,7 @@ Qed.
 (* "the bytes [w] written from state [s] are whole records leading the loader to [s']" *)
 (* every record boundary of [x] (seen by a loader in state [st]) is reached in a well-formed
    state *)
-Definition okcuts (strict : bool) (st : lstate) (x : bytes) : Prop :=
+Definition okcuts (strict : rmode) (st : lstate) (x : bytes) : Prop :=
   forall c rest st1, x = c ++ rest -> runs strict st c st1 [] -> ok_state (l_s st1).
 
 Lemma runs_nil_inv strict st st1 : runs strict st [] st1 [] -> st1 = st.
@@ -792,7 +826,7 @@ Proof.
   intros H c r st1 Hx Hr. eapply H; [|exact Hr]. rewrite Hx, <- app_assoc. reflexivity.
 Qed.
 
-Definition writes (strict : bool) (s : dstate) (w : bytes) (s' : dstate) : Prop :=
+Definition writes (strict : rmode) (s : dstate) (w : bytes) (s' : dstate) : Prop :=
   (forall st z, l_s st = s ->
      exists st1, runs strict st (w ++ z) st1 z /\ l_s st1 = s' /\ l_off st1 = l_off st + nlen w)
   /\ (forall st, l_s st = s -> okcuts strict st w).
@@ -1013,7 +1047,7 @@ Qed.
 
 (* [f] is a valid header followed by whole accepted records that lead the loader to [s]:
    no partial record, no stray bytes. *)
-Definition clean (strict : bool) (f : bytes) (s : dstate) : Prop :=
+Definition clean (strict : rmode) (f : bytes) (s : dstate) : Prop :=
   exists x st, f = deps_header ++ x /\ runs strict l_init x st [] /\ l_s st = s.
 
 Lemma clean_load old strict f s :
@@ -1048,7 +1082,7 @@ Qed.
 
 (* a clean file all of whose record boundaries are reached in well-formed states: what the
    writer produces *)
-Definition oclean (strict : bool) (f : bytes) (s : dstate) : Prop :=
+Definition oclean (strict : rmode) (f : bytes) (s : dstate) : Prop :=
   clean strict f s /\ exists x, f = deps_header ++ x /\ okcuts strict l_init x.
 
 Lemma oclean_header strict : oclean strict deps_header d_empty.
@@ -1292,13 +1326,13 @@ Proof. rewrite forallb_app. intros H. apply andb_true_iff in H. exact H. Qed.
 
 Lemma run_sessions_inv live (U : list bytes) : nlen U < kMaxIds ->
   forall sessions f prev s,
-  oclean true f s -> ok_state s -> incl (d_paths s) U ->
+  oclean RdCur f s -> ok_state s -> incl (d_paths s) U ->
   (forall o, view s o = spec_view (abstract_ops prev o)) ->
   Forall (fun op => incl (op_paths op) U) (concat sessions) ->
   forallb wf_op (concat sessions) = true ->
   (forall out m ins, In (RecordDeps out m ins) (prev ++ concat sessions) -> live out = true) ->
   exists s',
-    oclean true (run_sessions live f sessions) s' /\ ok_state s' /\ incl (d_paths s') U /\
+    oclean RdCur (run_sessions live f sessions) s' /\ ok_state s' /\ incl (d_paths s') U /\
     (forall o, view s' o = spec_view (abstract_ops (prev ++ concat sessions) o)).
 Proof.
   intros HU. induction sessions as [|ops r IH]; intros f prev s Hcl Hok Hincl Hv HUs Hwf Hlive.
@@ -1306,7 +1340,7 @@ Proof.
     split; [exact Hcl|]. split; [exact Hok|]. split; [exact Hincl|exact Hv].
   - cbn [concat] in *. apply Forall_app in HUs. destruct HUs as [HUo HUr].
     apply forallb_app_true in Hwf. destruct Hwf as [Hwo Hwr].
-    destruct (session_spec false true live U f s ops HU Hcl Hok Hincl HUo Hwo)
+    destruct (session_spec false RdCur live U f s ops HU Hcl Hok Hincl HUo Hwo)
       as (s1 & nr & _ & Cl1 & Ok1 & In1 & V1).
     destruct (IH (session live f ops) (prev ++ ops) s1 Cl1 Ok1 In1) as (s' & Cl' & Ok' & In' & V');
       try assumption.
@@ -1330,7 +1364,7 @@ Qed.
 Lemma run_sessions_clean live first rest :
   wf_ops (concat (first :: rest)) ->
   (forall out m ins, In (RecordDeps out m ins) (concat (first :: rest)) -> live out = true) ->
-  exists s, oclean true (run_sessions live [] (first :: rest)) s /\ ok_state s /\
+  exists s, oclean RdCur (run_sessions live [] (first :: rest)) s /\ ok_state s /\
             nlen (d_paths s) < kMaxIds /\
             incl (d_paths s) (flat_map op_paths (concat (first :: rest))) /\
             forall o, view s o = spec_view (abstract_ops (concat (first :: rest)) o).
@@ -1340,10 +1374,10 @@ Proof.
   set (U := flat_map op_paths all).
   assert (HU : nlen U < kMaxIds) by (unfold U; rewrite mentions_paths; exact Hcnt).
   cbn [run_sessions fold_left]. unfold session, session_gen. rewrite session_nil.
-  change (fold_left (session live) rest (session_ver false true live deps_header first))
+  change (fold_left (session live) rest (session_ver false RdCur live deps_header first))
     with (run_sessions live deps_header (first :: rest)).
   destruct (run_sessions_inv live U HU (first :: rest) deps_header [] d_empty
-              (oclean_header true) ok_empty) as (s & Cl & Ok & In' & V).
+              (oclean_header RdCur) ok_empty) as (s & Cl & Ok & In' & V).
   - intros x [].
   - intros o. reflexivity.
   - apply op_paths_incl.
@@ -1367,18 +1401,40 @@ Proof.
   split; [exact Hl|]. split; [exact Ok|exact V].
 Qed.
 
-Lemma apply_ops_clean ops :
+Lemma session_header_indep old m old' m' live ops :
+  session_ver old m live deps_header ops = session_ver old' m' live deps_header ops.
+Proof.
+  unfold session_ver.
+  replace (load_deps_ver old m deps_header) with (DOk d_empty None false)
+    by (destruct old, m as [[|]|]; reflexivity).
+  replace (load_deps_ver old' m' deps_header) with (DOk d_empty None false)
+    by (destruct old', m' as [[|]|]; reflexivity).
+  reflexivity.
+Qed.
+
+(* The file of a first session is clean for every reader version [m]. *)
+Lemma apply_ops_clean m ops :
   wf_ops ops ->
-  exists s, oclean true (apply_ops [] ops) s /\ ok_state s /\ nlen (d_paths s) < kMaxIds /\
+  exists s, oclean m (apply_ops [] ops) s /\ ok_state s /\ nlen (d_paths s) < kMaxIds /\
             incl (d_paths s) (flat_map op_paths ops) /\
             forall o, view s o = spec_view (abstract_ops ops o).
 Proof.
-  intros Hwf.
-  destruct (run_sessions_clean (fun _ => true) ops []) as (s & Cl & Ok & Hc & Hi & Hv).
-  - cbn [concat]. rewrite app_nil_r. exact Hwf.
-  - reflexivity.
-  - exists s. split; [exact Cl|]. split; [exact Ok|]. split; [exact Hc|].
-    cbn [concat] in Hi, Hv. rewrite app_nil_r in Hi, Hv. split; [exact Hi|exact Hv].
+  intros [Hwf Hcnt].
+  set (U := flat_map op_paths ops).
+  assert (HU : nlen U < kMaxIds) by (unfold U; rewrite mentions_paths; exact Hcnt).
+  assert (E : apply_ops [] ops = session_ver false m (fun _ => true) deps_header ops).
+  { unfold apply_ops, session, session_gen. rewrite session_nil. apply session_header_indep. }
+  rewrite E.
+  destruct (session_spec false m (fun _ => true) U deps_header d_empty ops HU
+              (oclean_header m) ok_empty) as (s & nr & _ & Cl & Ok & In' & V).
+  - intros x [].
+  - apply op_paths_incl.
+  - exact Hwf.
+  - exists s. split; [exact Cl|]. split; [exact Ok|].
+    split; [pose proof (nodup_incl_nlen _ _ (ok_nodup _ Ok) In'); lia|].
+    split; [exact In'|].
+    intros o. rewrite V. unfold upd. destruct (abstract_ops ops o) as [x|]; [reflexivity|].
+    rewrite view_empty. destruct nr; reflexivity.
 Qed.
 
 Theorem C09_roundtrip_thm ops :
@@ -1405,7 +1461,7 @@ Theorem C09_recompact_live_thm live s :
     forall o, view s2 o = if live o then view s o else None.
 Proof.
   intros Hok Hcnt.
-  destruct (recompact_spec true live s Hok Hcnt) as (s2 & w & E & Cl & Ok2 & _ & V).
+  destruct (recompact_spec RdCur live s Hok Hcnt) as (s2 & w & E & Cl & Ok2 & _ & V).
   unfold recompact. rewrite E.
   destruct (clean_load false _ _ _ (proj1 Cl)) as [nr Hl].
   exists s2, nr. split; [exact Hl|]. split; [exact Ok2|exact V].
@@ -1524,18 +1580,18 @@ Qed.
 (* C09_torn for files written by the real writer                                        *)
 
 (* Both loaders, every prefix: the precise outcome. *)
-Theorem torn_apply_ops ops :
+Theorem torn_apply_ops m ops :
   wf_ops ops ->
   forall k, (16 <= k <= length (apply_ops [] ops))%nat ->
   exists off s1 nr1,
     (16 <= off <= k)%nat /\
-    clean true (firstn off (apply_ops [] ops)) s1 /\
-    (forall j s', (off < j <= k)%nat -> ~ clean true (firstn j (apply_ops [] ops)) s') /\
-    (forall old, load_deps_ver old true (firstn k (apply_ops [] ops))
+    clean m (firstn off (apply_ops [] ops)) s1 /\
+    (forall j s', (off < j <= k)%nat -> ~ clean m (firstn j (apply_ops [] ops)) s') /\
+    (forall old, load_deps_ver old m (firstn k (apply_ops [] ops))
                  = torn_outcome old s1 nr1 off k).
 Proof.
-  intros Hwf k Hk. destruct (apply_ops_clean ops Hwf) as (s & [Cl _] & _).
-  destruct (torn_clean true _ s Cl k Hk) as (off & s1 & nr1 & H1 & H2 & H3 & _ & _ & H4).
+  intros Hwf k Hk. destruct (apply_ops_clean m ops Hwf) as (s & [Cl _] & _).
+  destruct (torn_clean m _ s Cl k Hk) as (off & s1 & nr1 & H1 & H2 & H3 & _ & _ & H4).
   exists off, s1, nr1. repeat split; try assumption; lia.
 Qed.
 
@@ -1548,15 +1604,15 @@ Theorem C09_torn_thm ops :
   ((16 <= k)%nat ->
    exists off s1 nr,
      (16 <= off <= k)%nat /\
-     clean true (firstn off (apply_ops [] ops)) s1 /\
-     (forall j s', (off < j <= k)%nat -> ~ clean true (firstn j (apply_ops [] ops)) s') /\
+     clean RdCur (firstn off (apply_ops [] ops)) s1 /\
+     (forall j s', (off < j <= k)%nat -> ~ clean RdCur (firstn j (apply_ops [] ops)) s') /\
      load_deps (firstn k (apply_ops [] ops)) =
        DOk s1 (if (k =? off)%nat then None else Some off) nr).
 Proof.
   intros Hwf k Hk. split.
   - intros Hlt. apply torn_header. exact Hlt.
   - intros Hge.
-    destruct (torn_apply_ops ops Hwf k ltac:(lia)) as (off & s1 & nr1 & H1 & H2 & H3 & H4).
+    destruct (torn_apply_ops RdCur ops Hwf k ltac:(lia)) as (off & s1 & nr1 & H1 & H2 & H3 & H4).
     specialize (H4 false). unfold torn_outcome in H4.
     exists off, s1.
     destruct (Nat.eqb_spec k off) as [->|Hne].
@@ -1575,15 +1631,15 @@ Theorem C09_torn_old_partial_thm ops :
   ((16 <= k)%nat ->
    exists off s1 nr1,
      (16 <= off <= k)%nat /\
-     clean true (firstn off (apply_ops [] ops)) s1 /\
-     (forall j s', (off < j <= k)%nat -> ~ clean true (firstn j (apply_ops [] ops)) s') /\
+     clean (RdOld true) (firstn off (apply_ops [] ops)) s1 /\
+     (forall j s', (off < j <= k)%nat -> ~ clean (RdOld true) (firstn j (apply_ops [] ops)) s') /\
      load_deps_old (firstn k (apply_ops [] ops)) =
        (if (k - off <? 4)%nat then DOk s1 None nr1 else DOk s1 (Some off) false)).
 Proof.
   intros Hwf k Hk. split.
   - intros Hlt. apply torn_header. exact Hlt.
   - intros Hge.
-    destruct (torn_apply_ops ops Hwf k ltac:(lia)) as (off & s1 & nr1 & H1 & H2 & H3 & H4).
+    destruct (torn_apply_ops (RdOld true) ops Hwf k ltac:(lia)) as (off & s1 & nr1 & H1 & H2 & H3 & H4).
     specialize (H4 true). unfold torn_outcome in H4.
     exists off, s1, nr1. split; [exact H1|]. split; [exact H2|]. split; [exact H3|].
     unfold load_deps_old. rewrite H4.
@@ -1598,7 +1654,7 @@ Definition C09_torn_old_full : Prop :=
   forall k, (16 <= k <= length (apply_ops [] ops))%nat ->
   exists off s1 nr1,
     (16 <= off <= k)%nat /\
-    clean true (firstn off (apply_ops [] ops)) s1 /\
+    clean (RdOld true) (firstn off (apply_ops [] ops)) s1 /\
     load_deps_old (firstn k (apply_ops [] ops)) =
       DOk s1 (if (k =? off)%nat then None else Some off) nr1.
 
@@ -1639,7 +1695,7 @@ Proof.
   rewrite Hf in Hx. apply app_inv_head in Hx. subst x.
   destruct (runs_inv_nonempty _ _ _ _ Hr ltac:(discriminate)) as (st1 & y & Hs & Hr1).
   vm_compute in Hs. inversion Hs; subst st1 y. clear Hs.
-  refine (runs_stuck true _ _ _ _ _ Hr1); [vm_compute; reflexivity|discriminate].
+  refine (runs_stuck (RdOld true) _ _ _ _ _ Hr1); [vm_compute; reflexivity|discriminate].
 Qed.
 
 (* The consequence for the OLD code.  What one wants: whatever prefix of the log reached the
@@ -1790,12 +1846,14 @@ Definition unsafe6 : bytes := deps_header ++ w32 [5] ++ [120] ++ w32 [4294967295
 (* accepted by Load, crashes Recompact: deps record for out id 0 while nodes_ is empty *)
 Definition unsafe_recompact : bytes := deps_header ++ w32 [2147483660; 0; 0; 0].
 
+(* The reader BEFORE the fix "validate record sizes and ids when loading the deps log"
+   ([load_deps_rd_old strict] = [load_deps_ver false (RdOld strict)]). *)
 Theorem C13_depslog_bounds_refuted_thm :
-  load_deps unsafe1 = DUnsafe 1 /\ load_deps unsafe2 = DUnsafe 2 /\
-  load_deps unsafe3 = DUnsafe 3 /\ load_deps unsafe4 = DUnsafe 4 /\
-  load_deps unsafe5 = DUnsafe 5 /\ load_deps unsafe6 = DUnsafe 6 /\
-  load_deps_x86 unsafe5 = DUnsafe 5 /\
-  (exists s, load_deps unsafe_recompact = DOk s None false /\
+  load_deps_rd_old true unsafe1 = DUnsafe 1 /\ load_deps_rd_old true unsafe2 = DUnsafe 2 /\
+  load_deps_rd_old true unsafe3 = DUnsafe 3 /\ load_deps_rd_old true unsafe4 = DUnsafe 4 /\
+  load_deps_rd_old true unsafe5 = DUnsafe 5 /\ load_deps_rd_old true unsafe6 = DUnsafe 6 /\
+  load_deps_rd_old false unsafe5 = DUnsafe 5 /\
+  (exists s, load_deps_rd_old true unsafe_recompact = DOk s None false /\
              forall live, recompact_r live s = CUnsafe 1).
 Proof.
   do 7 (split; [vm_compute; reflexivity|]).
@@ -1824,9 +1882,9 @@ Qed.
 Lemma decode_safe strict paths d size buf :
   length buf = N.to_nat size ->
   record_safe strict (d, size, buf) = true ->
-  forall w, decode strict paths d size buf <> RUnsafe w.
+  forall w, decode (RdOld strict) paths d size buf <> RUnsafe w.
 Proof.
-  intros Hlen Hs w. unfold record_safe in Hs. unfold decode. destruct d.
+  intros Hlen Hs w. unfold record_safe in Hs. unfold decode, decode_old. destruct d.
   - destruct (size mod 4 =? 0); cbn [negb]; [|discriminate].
     destruct (words_of buf) as [|out [|lo [|hi ins]]]; try discriminate.
     apply andb_true_iff in Hs. destruct Hs as [Ho Hi].
@@ -1863,7 +1921,7 @@ Qed.
 
 Lemma load_loop_safe old strict : forall fuel st x,
   forallb (record_safe strict) (frames_of fuel x) = true ->
-  forall w, load_loop old strict fuel st x <> DUnsafe w.
+  forall w, load_loop old (RdOld strict) fuel st x <> DUnsafe w.
 Proof.
   induction fuel as [|fuel IH]; intros st x Hs w; [discriminate|].
   cbn [load_loop]. cbn [frames_of] in Hs.
@@ -1872,16 +1930,16 @@ Proof.
   destruct (frame_rec _ _ _ _ _ Ef) as (hd & _ & _ & Hbuf & _).
   cbn [forallb] in Hs. apply andb_true_iff in Hs. destruct Hs as [Hs1 Hs2].
   pose proof (decode_safe strict (d_paths (l_s st)) d size buf Hbuf Hs1) as Hd.
-  destruct (decode strict (d_paths (l_s st)) d size buf); try discriminate.
+  destruct (decode (RdOld strict) (d_paths (l_s st)) d size buf); try discriminate.
   - exfalso. exact (Hd _ eq_refl).
   - apply IH. exact Hs2.
   - apply IH. exact Hs2.
 Qed.
 
-(* On every file whose framed records avoid the listed classes the loader has no undefined
+(* OLD reader: on every file whose framed records avoid the listed classes it has no undefined
    behaviour (and it always terminates: load_deps_never_fuel). *)
-Theorem C13_depslog_bounds_partial_thm old strict f :
-  safe_file strict f = true -> forall w, load_deps_ver old strict f <> DUnsafe w.
+Theorem C13_depslog_bounds_old_partial_thm old strict f :
+  safe_file strict f = true -> forall w, load_deps_ver old (RdOld strict) f <> DUnsafe w.
 Proof.
   unfold safe_file, load_deps_ver. destruct (take 16 f) as [[h x]|]; [|discriminate].
   intros Hs w. destruct (bytes_eqb h deps_header); [|discriminate].
@@ -1892,6 +1950,178 @@ Qed.
    here for the example used in the non-vacuity checks). *)
 Example safe_file_example : safe_file true torn_file = true.
 Proof. vm_compute. reflexivity. Qed.
+
+(* ------------------------------------------------------------------------------------ *)
+(* The CURRENT reader: no undefined behaviour on any file                               *)
+
+(* the same seven files on the current code: the record is malformed, the load ends in front
+   of it (truncation to the 16 header bytes) *)
+Example unsafe_files_now :
+  load_deps unsafe1 = DOk d_empty (Some 16%nat) false /\
+  load_deps unsafe2 = DOk d_empty (Some 16%nat) false /\
+  load_deps unsafe3 = DOk d_empty (Some 16%nat) false /\
+  load_deps unsafe4 = DOk d_empty (Some 16%nat) false /\
+  load_deps unsafe5 = DOk d_empty (Some 16%nat) false /\
+  load_deps unsafe6 = DOk d_empty (Some 16%nat) false /\
+  load_deps unsafe_recompact = DOk d_empty (Some 16%nat) false.
+Proof. do 6 (split; [vm_compute; reflexivity|]). vm_compute. reflexivity. Qed.
+
+Lemma words_of_length (buf : bytes) : forall k, length buf = (4 * k)%nat -> length (words_of buf) = k.
+Proof.
+  intros k. revert buf. induction k as [|k IH]; intros buf Hl.
+  - destruct buf; [reflexivity|discriminate].
+  - destruct buf as [|b0 [|b1 [|b2 [|b3 r]]]]; cbn [length] in Hl; try lia.
+    cbn [words_of length]. f_equal. apply IH. lia.
+Qed.
+
+(* The accesses that were undefined in the old reader are unreachable in the current one. *)
+Lemma decode_cur_safe paths d size buf :
+  length buf = N.to_nat size -> forall w, decode_cur paths d size buf <> RUnsafe w.
+Proof.
+  intros Hlen w. unfold decode_cur. destruct d.
+  - destruct (N.eqb_spec (size mod 4) 0) as [Hm|Hm]; cbn [negb orb]; [|discriminate].
+    destruct (N.ltb_spec size 12) as [Hs|Hs]; [discriminate|].
+    pose proof (words_of_length buf (N.to_nat (size / 4)) ltac:(lia)) as Hw.
+    destruct (words_of buf) as [|out [|lo [|hi ins]]]; cbn [length] in Hw; try lia.
+    destruct ((two31 <=? out) || (nlen paths <=? out)); [discriminate|].
+    destruct (check_ids_cur (nlen paths) ins); discriminate.
+  - rewrite frev_rev.
+    destruct (rev buf) as [|c3 [|c2 [|c1 [|c0 rp]]]] eqn:Er; try discriminate.
+    destruct rp as [|r0 rp']; [discriminate|].
+    destruct (N.eqb_spec (size mod 4) 0) as [Hm|Hm]; cbn [negb]; [|discriminate].
+    assert (Hl : length buf = (5 + length rp')%nat).
+    { rewrite <- (rev_length buf), Er. reflexivity. }
+    pose proof (strip3_some (r0 :: rp') ltac:(cbn [length]; lia)) as Hst.
+    destruct (strip3 (r0 :: rp')) as [rp2|]; [|congruence].
+    destruct (negb _ || _); discriminate.
+Qed.
+
+Lemma load_loop_cur_safe old : forall fuel st x w, load_loop old RdCur fuel st x <> DUnsafe w.
+Proof.
+  induction fuel as [|fuel IH]; intros st x w; [discriminate|].
+  cbn [load_loop].
+  destruct (frame x) as [| | |d size buf rest] eqn:Ef; try discriminate.
+  { destruct old; discriminate. }
+  destruct (frame_rec _ _ _ _ _ Ef) as (hd & _ & _ & Hbuf & _).
+  cbn [decode].
+  pose proof (decode_cur_safe (d_paths (l_s st)) d size buf Hbuf) as Hd.
+  destruct (decode_cur (d_paths (l_s st)) d size buf); try discriminate.
+  - exfalso. exact (Hd _ eq_refl).
+  - apply IH.
+  - apply IH.
+Qed.
+
+(* C13_depslog_bounds: unconditional. *)
+Theorem C13_depslog_bounds_thm old f w : load_deps_ver old RdCur f <> DUnsafe w.
+Proof.
+  unfold load_deps_ver. destruct (take 16 f) as [[h x]|]; [|discriminate].
+  destruct (bytes_eqb h deps_header); [|discriminate]. apply load_loop_cur_safe.
+Qed.
+
+(* Every state the current reader produces has all its ids in range ... *)
+Definition ids_in_range (s : dstate) : Prop :=
+  Forall (fun e => fst e < nlen (d_paths s) /\
+                   Forall (fun i => i < nlen (d_paths s)) (snd (snd e))) (d_deps s).
+
+Lemma decode_cur_deps_inv paths size buf out m ins :
+  decode_cur paths true size buf = RDeps out m ins ->
+  out < nlen paths /\ Forall (fun i => i < nlen paths) ins.
+Proof.
+  unfold decode_cur.
+  destruct (negb (size mod 4 =? 0) || (size <? 12)); [discriminate|].
+  destruct (words_of buf) as [|o [|lo [|hi is]]]; try discriminate.
+  destruct ((two31 <=? o) || (nlen paths <=? o)) eqn:Eo; [discriminate|].
+  destruct (check_ids_cur (nlen paths) is) eqn:Ec; [|discriminate].
+  intros H. inversion H; subst out m ins. split; [lia|].
+  unfold check_ids_cur in Ec. rewrite forallb_forall in Ec.
+  apply Forall_forall. intros i Hi. specialize (Ec i Hi). lia.
+Qed.
+
+Lemma decode_cur_path_not_deps paths size buf out m ins :
+  decode_cur paths false size buf <> RDeps out m ins.
+Proof.
+  unfold decode_cur. destruct (frev buf) as [|c3 [|c2 [|c1 [|c0 rp]]]]; try discriminate.
+  destruct rp; [discriminate|]. destruct (negb (size mod 4 =? 0)); [discriminate|].
+  destruct (strip3 _); [|discriminate]. destruct (negb _ || _); discriminate.
+Qed.
+
+Lemma decode_cur_deps_not_path paths size buf p :
+  decode_cur paths true size buf <> RPath p.
+Proof.
+  unfold decode_cur. destruct (negb (size mod 4 =? 0) || (size <? 12)); [discriminate|].
+  destruct (words_of buf) as [|o [|lo [|hi is]]]; try discriminate.
+  destruct ((two31 <=? o) || (nlen paths <=? o)); [discriminate|].
+  destruct (check_ids_cur _ _); discriminate.
+Qed.
+
+Lemma ids_in_range_grow s (p : bytes) : ids_in_range s -> ids_in_range (add_path s p).
+Proof.
+  unfold ids_in_range. cbn [add_path d_paths d_deps]. intros H.
+  eapply Forall_impl; [|exact H]. cbn beta. intros e [H1 H2]. rewrite nlen_app.
+  split; [lia|]. eapply Forall_impl; [|exact H2]. cbn beta. intros i Hi. lia.
+Qed.
+
+Lemma step_cur_ids st x st' y :
+  step RdCur st x = Some (st', y) -> ids_in_range (l_s st) -> ids_in_range (l_s st').
+Proof.
+  unfold step. destruct (frame x) as [| | |d size buf rest]; try discriminate.
+  cbn [decode].
+  destruct (decode_cur (d_paths (l_s st)) d size buf) as [| |p|o m ins] eqn:Ed; try discriminate.
+  - intros H Hi. inversion H; subst st' y. cbn [l_add_path l_s]. apply ids_in_range_grow. exact Hi.
+  - intros H Hi. inversion H; subst st' y. cbn [l_add_deps l_s].
+    destruct d; [|exfalso; exact (decode_cur_path_not_deps _ _ _ _ _ _ Ed)].
+    apply decode_cur_deps_inv in Ed.
+    unfold ids_in_range. cbn [add_deps d_paths d_deps]. constructor; [exact Ed|exact Hi].
+Qed.
+
+Lemma runs_cur_ids st x st' y :
+  runs RdCur st x st' y -> ids_in_range (l_s st) -> ids_in_range (l_s st').
+Proof.
+  induction 1 as [|st x st1 y st' z Hs _ IH]; intros Hi; [exact Hi|].
+  apply IH. eapply step_cur_ids; eassumption.
+Qed.
+
+Theorem load_deps_ids_in_range old f s tr nr :
+  load_deps_ver old RdCur f = DOk s tr nr -> ids_in_range s.
+Proof.
+  intros Hl.
+  destruct (load_deps_header_inv old RdCur f ltac:(congruence)) as [x ->].
+  destruct (runs_total RdCur (length x) x l_init (le_n _)) as (st' & y & Hr & Hn).
+  rewrite (load_deps_runs _ _ _ _ _ Hr Hn) in Hl.
+  pose proof (runs_cur_ids _ _ _ _ Hr ltac:(constructor)) as Hi.
+  unfold final in Hl.
+  destruct (frame y) as [| | |d size buf rest].
+  - inversion Hl; subst. exact Hi.
+  - destruct old; inversion Hl; subst; exact Hi.
+  - inversion Hl; subst. exact Hi.
+  - destruct (decode RdCur (d_paths (l_s st')) d size buf); inversion Hl; subst; exact Hi.
+Qed.
+
+(* ... hence Recompact never indexes nodes_ out of bounds on them. *)
+Lemma recompact_ops_some live s : ids_in_range s ->
+  forall ids, recompact_ops live s ids <> None.
+Proof.
+  intros Hi. induction ids as [|i r IH]; cbn [recompact_ops]; [discriminate|].
+  destruct (recompact_ops live s r) as [ops|]; [|congruence].
+  destruct (lookup i (d_deps s)) as [[m ins]|] eqn:El; [|discriminate].
+  destruct (nth_error (d_paths s) (N.to_nat i)) as [p|]; [|discriminate].
+  apply lookup_in in El. unfold ids_in_range in Hi. rewrite Forall_forall in Hi.
+  destruct (Hi _ El) as [_ Hins]. cbn [snd] in Hins.
+  destruct (resolve_spec (d_paths s) ins Hins) as (ps & Er & _). rewrite Er. discriminate.
+Qed.
+
+Theorem C13_recompact_bounds_thm old f s tr nr live w :
+  load_deps_ver old RdCur f = DOk s tr nr -> recompact_r live s <> CUnsafe w.
+Proof.
+  intros Hl. pose proof (load_deps_ids_in_range _ _ _ _ _ Hl) as Hi.
+  unfold recompact_r.
+  destruct (existsb (fun e => nlen (d_paths s) <=? fst e) (d_deps s)) eqn:Ex.
+  { apply existsb_exists in Ex. destruct Ex as (e & He & Hle).
+    unfold ids_in_range in Hi. rewrite Forall_forall in Hi. destruct (Hi e He) as [Hlt _]. lia. }
+  pose proof (recompact_ops_some live s Hi (nseq 0 (length (d_paths s)))) as Hs.
+  destruct (recompact_ops live s (nseq 0 (length (d_paths s)))) as [ops|]; [|congruence].
+  destruct (run_ops d_empty ops) as [[s2 w2] [|]]; discriminate.
+Qed.
 
 (* ==================================================================================== *)
 (* 13. After a torn write: the next session                                             *)
@@ -1929,25 +2159,25 @@ Qed.
    to 3 bytes of a size word.  The session that starts from the torn log is consistent: the load
    after it sees the records that were complete at the cut (state s1) updated by everything the
    session recorded, and the file is clean again. *)
-Theorem torn_next_session old ops ops2 :
+Theorem torn_next_session old m ops ops2 :
   wf_ops (ops ++ ops2) ->
   forall k, (16 <= k <= length (apply_ops [] ops))%nat ->
   exists off s1,
     (16 <= off <= k)%nat /\
-    clean true (firstn off (apply_ops [] ops)) s1 /\
-    (forall j s', (off < j <= k)%nat -> ~ clean true (firstn j (apply_ops [] ops)) s') /\
+    clean m (firstn off (apply_ops [] ops)) s1 /\
+    (forall j s', (off < j <= k)%nat -> ~ clean m (firstn j (apply_ops [] ops)) s') /\
     (old = false \/ k = off \/ (off + 4 <= k)%nat ->
      exists s' nr,
-       load_deps_ver old true
-         (session_ver old true (fun _ => true) (firstn k (apply_ops [] ops)) ops2)
+       load_deps_ver old m
+         (session_ver old m (fun _ => true) (firstn k (apply_ops [] ops)) ops2)
        = DOk s' None nr /\
        forall o, view s' o = upd (view s1) ops2 o).
 Proof.
   intros Hwf k Hk.
   pose proof (wf_ops_app_l _ _ Hwf) as Hwf1.
-  destruct (apply_ops_clean ops Hwf1) as (s & [Cl (x & Hx & Kx)] & Ok & _ & Hincl & _).
+  destruct (apply_ops_clean m ops Hwf1) as (s & [Cl (x & Hx & Kx)] & Ok & _ & Hincl & _).
   set (file := apply_ops [] ops) in *.
-  destruct (torn_clean true file s Cl k Hk)
+  destruct (torn_clean m file s Cl k Hk)
     as (off & s1 & nr1 & Hoff & Cl1 & Hmax & Hext & Hloadoff & Hload).
   exists off, s1. split; [exact Hoff|]. split; [exact Cl1|]. split; [exact Hmax|].
   (* the state at the cut is well-formed, and the cut file is an oclean file *)
@@ -1955,13 +2185,13 @@ Proof.
   { rewrite Hx, firstn_app. change (length deps_header) with 16%nat.
     rewrite (firstn_all2 deps_header) by (change (length deps_header) with 16%nat; lia).
     reflexivity. }
-  assert (Kx1 : okcuts true l_init (firstn (off - 16) x)).
-  { apply (okcuts_prefix true l_init _ (skipn (off - 16) x)). rewrite firstn_skipn. exact Kx. }
+  assert (Kx1 : okcuts m l_init (firstn (off - 16) x)).
+  { apply (okcuts_prefix m l_init _ (skipn (off - 16) x)). rewrite firstn_skipn. exact Kx. }
   assert (Ok1 : ok_state s1).
   { destruct Cl1 as (x1 & st1 & Hx1 & Hr1 & Hs1). rewrite Hfo in Hx1.
     apply app_inv_head in Hx1. subst x1. rewrite <- Hs1.
     eapply Kx1; [symmetry; apply app_nil_r|exact Hr1]. }
-  assert (OCl1 : oclean true (firstn off file) s1).
+  assert (OCl1 : oclean m (firstn off file) s1).
   { split; [exact Cl1|]. exists (firstn (off - 16) x). split; [exact Hfo|exact Kx1]. }
   destruct Hwf as [Hwfb Hcnt].
   set (U := flat_map op_paths (ops ++ ops2)).
@@ -1975,9 +2205,9 @@ Proof.
   (* a session that starts from the clean cut *)
   assert (Hclean_case :
     exists s' nr,
-      load_deps_ver old true (session_ver old true (fun _ => true) (firstn off file) ops2)
+      load_deps_ver old m (session_ver old m (fun _ => true) (firstn off file) ops2)
       = DOk s' None nr /\ forall o, view s' o = upd (view s1) ops2 o).
-  { destruct (session_spec old true (fun _ => true) U _ s1 ops2 HU OCl1 Ok1 Hin1 HU2 Hwf2)
+  { destruct (session_spec old m (fun _ => true) U _ s1 ops2 HU OCl1 Ok1 Hin1 HU2 Hwf2)
       as (s' & nr & _ & OCl' & _ & _ & V').
     destruct (clean_load old _ _ _ (proj1 OCl')) as [nr' Hl'].
     exists s', nr'. split; [exact Hl'|].
@@ -1991,14 +2221,14 @@ Proof.
     + (* 1..3 bytes of a size word survive: only the current loader is claimed *)
       destruct old.
       { exfalso. destruct Hcase as [Hc|[Hc|Hc]]; [discriminate|lia|lia]. }
-      rewrite (session_truncated false true (fun _ => true) (firstn k file) (firstn off file)
+      rewrite (session_truncated false m (fun _ => true) (firstn k file) (firstn off file)
                  off s1 nr1 ops2 Hload (Hloadoff false)).
       * exact Hclean_case.
       * rewrite firstn_firstn. replace (Nat.min off k) with off by lia. reflexivity.
     + (* at least the size word of the torn record survived: read_failed, truncation *)
-      destruct (run_ops_spec true U HU ops2 s1 Ok1 Hin1 HU2 Hwf2)
+      destruct (run_ops_spec m U HU ops2 s1 Ok1 Hin1 HU2 Hwf2)
         as (s' & w & E & _ & _ & W & _ & V').
-      assert (Hsess : session_ver old true (fun _ => true) (firstn k file) ops2
+      assert (Hsess : session_ver old m (fun _ => true) (firstn k file) ops2
                       = firstn off file ++ w).
       { unfold session_ver. rewrite Hload, E.
         rewrite firstn_firstn. replace (Nat.min off k) with off by lia. reflexivity. }
@@ -2019,8 +2249,8 @@ Theorem C09_torn_next_session_thm ops ops2 :
   ((16 <= k)%nat ->
    exists off s1,
      (16 <= off <= k)%nat /\
-     clean true (firstn off (apply_ops [] ops)) s1 /\
-     (forall j s', (off < j <= k)%nat -> ~ clean true (firstn j (apply_ops [] ops)) s') /\
+     clean RdCur (firstn off (apply_ops [] ops)) s1 /\
+     (forall j s', (off < j <= k)%nat -> ~ clean RdCur (firstn j (apply_ops [] ops)) s') /\
      exists s' nr,
        load_deps (apply_ops (firstn k (apply_ops [] ops)) ops2) = DOk s' None nr /\
        forall o, view s' o = upd (view s1) ops2 o).
@@ -2031,10 +2261,10 @@ Proof.
     exists s', nr. split; [|exact Hv].
     replace (apply_ops (firstn k (apply_ops [] ops)) ops2) with (apply_ops [] ops2); [exact Hl|].
     unfold apply_ops, session, session_gen, session_ver.
-    rewrite (torn_header false true _ k Hlt).
-    replace (load_deps_ver false true []) with DBadHeader by reflexivity. reflexivity.
+    rewrite (torn_header false RdCur _ k Hlt).
+    replace (load_deps_ver false RdCur []) with DBadHeader by reflexivity. reflexivity.
   - intros Hge.
-    destruct (torn_next_session false ops ops2 Hwf k ltac:(lia))
+    destruct (torn_next_session false RdCur ops ops2 Hwf k ltac:(lia))
       as (off & s1 & H1 & H2 & H3 & H4).
     exists off, s1. split; [exact H1|]. split; [exact H2|]. split; [exact H3|].
     exact (H4 (or_introl eq_refl)).
@@ -2046,15 +2276,15 @@ Theorem C09_torn_next_session_old_partial_thm ops ops2 :
   forall k, (16 <= k <= length (apply_ops [] ops))%nat ->
   exists off s1,
     (16 <= off <= k)%nat /\
-    clean true (firstn off (apply_ops [] ops)) s1 /\
-    (forall j s', (off < j <= k)%nat -> ~ clean true (firstn j (apply_ops [] ops)) s') /\
+    clean (RdOld true) (firstn off (apply_ops [] ops)) s1 /\
+    (forall j s', (off < j <= k)%nat -> ~ clean (RdOld true) (firstn j (apply_ops [] ops)) s') /\
     (k = off \/ (off + 4 <= k)%nat ->
      exists s' nr,
        load_deps_old (apply_ops_old (firstn k (apply_ops [] ops)) ops2) = DOk s' None nr /\
        forall o, view s' o = upd (view s1) ops2 o).
 Proof.
   intros Hwf k Hk.
-  destruct (torn_next_session true ops ops2 Hwf k Hk) as (off & s1 & H1 & H2 & H3 & H4).
+  destruct (torn_next_session true (RdOld true) ops ops2 Hwf k Hk) as (off & s1 & H1 & H2 & H3 & H4).
   exists off, s1. split; [exact H1|]. split; [exact H2|]. split; [exact H3|].
   intros Hc. exact (H4 (or_intror Hc)).
 Qed.
